@@ -35,7 +35,7 @@ DEDICATED = ('xdoctest.checker.GotWantException', 'xdoctest.checker.ExtractGotRe
 
 def run(ctx):
     for fn in (r1_escape_return_mode, r2_user_code_calls, r3_fail_store_leaves_loop, r4_render_index, r5_runner_policy, r6_plugin_render, r7_render_raises,
-               r8_failed_part_set_before_failure, r9_failing_line_source, r10_failed_summary_is_only_failed, r11_definite_assignment):
+               r8_failed_part_set_before_failure, r9_failing_line_source, r10_failed_summary_is_only_failed, r11_definite_assignment, r12_summary_renders_every_failure):
         ctx.rep.rule(fn, ctx)
 
 
@@ -781,6 +781,61 @@ def r11_definite_assignment(ctx):
     definite_assignment(ctx, 'C09.R11', {'xdoctest.doctest_example', 'xdoctest.checker', 'xdoctest.doctest_part', 'xdoctest.runner', 'xdoctest.directive', 'xdoctest.utils.util_stream'}, 60)
 
 
+def r12_summary_renders_every_failure(ctx):
+    """the final report renders EVERY recorded failure when more than one doctest ran (with a single doctest the failure was rendered by the run
+    itself): the guard of the rendering loop in _print_summary_report is evaluated over the numbers of failed / run doctests (FINITE-EVAL)"""
+    rep = ctx.rep
+    q = 'xdoctest.runner._print_summary_report'
+    f = ctx.func(q)
+    g = ctx.cfg(f)
+    dom = ctx.dom(g, g.entry)
+    loops = [n for n in g.nodes if n.kind == 'for' and not n.dup and any(isinstance(x, ast.Name) and x.id == 'failed' for x in ast.walk(n.ast.iter))
+             and any(isinstance(c, ast.Call) and isinstance(c.func, ast.Attribute) and c.func.attr == 'repr_failure' for st in n.ast.body for c in ast.walk(st))]
+    rep.floor('C09.R12', 'loops that render the failed doctests in the summary', len(loops), 1)
+
+    class _Unknown(Exception):
+        pass
+
+    def ev(e, env):
+        if isinstance(e, ast.Constant):
+            return e.value
+        if isinstance(e, ast.Name) and e.id in env:
+            return env[e.id]
+        if isinstance(e, ast.Call) and isinstance(e.func, ast.Name) and e.func.id == 'len' and len(e.args) == 1:
+            return len(ev(e.args[0], env))
+        if isinstance(e, ast.UnaryOp) and isinstance(e.op, ast.Not):
+            return not ev(e.operand, env)
+        if isinstance(e, ast.BoolOp):
+            vs = [bool(ev(v, env)) for v in e.values]
+            return all(vs) if isinstance(e.op, ast.And) else any(vs)
+        if isinstance(e, ast.Compare) and len(e.ops) == 1:
+            l, r = ev(e.left, env), ev(e.comparators[0], env)
+            op = type(e.ops[0])
+            table = {ast.Gt: l > r, ast.GtE: l >= r, ast.Lt: l < r, ast.LtE: l <= r, ast.Eq: l == r, ast.NotEq: l != r}
+            if op in table:
+                return table[op]
+        raise _Unknown(ast.unparse(e))
+    for lp in loops:
+        facts = [fa for fa in graph.guard_facts(dom, lp) if fa.polarity in (True, False) and isinstance(fa.expr, ast.AST)]
+        rows = []
+        for nf in (0, 1, 2):
+            for ne in (1, 2, 3):
+                if nf > ne:
+                    continue
+                env = {'failed': [0] * nf, 'enabled_examples': [0] * ne}
+                try:
+                    entered = all(bool(ev(fa.expr, env)) == fa.polarity for fa in facts)
+                except _Unknown as ex:
+                    raise AnalysisError('C09.R12: a condition of the rendering loop was not recognised: %s' % ex)
+                spec = nf >= 1 and ne > 1
+                if entered != spec and not (nf == 0):
+                    rows.append((nf, ne, entered))
+        rep.ob('C09.R12', ctx.loc(f, lp.ast), 'failures rendered under %s' % fmt_facts(facts), not rows,
+               'rendered whenever at least one of several doctests failed' if not rows else
+               'with (failed, run) = %s the failures are %s: a failing doctest is reported only as a count and a command line, never with its exception and failing line' %
+               ([(a, b) for (a, b, _e) in rows], 'not rendered' if not rows[0][2] else 'rendered twice'), anchor=q)
+
+
 # ---------------------------------------------------------------------------
 from ..selftest import fire, silent      # noqa: E402
 
@@ -788,6 +843,7 @@ DE = 'xdoctest/doctest_example.py'
 CK = 'xdoctest/checker.py'
 RN = 'xdoctest/runner.py'
 VARIANTS = [
+    fire('single-failure-among-many-not-rendered', 'C09.R12', ('xdoctest/runner.py', "    if failed and len(enabled_examples) > 1:\n", "    if len(failed) > 1:\n")),
     fire('met-requirement-leaves-action-unassigned', 'C09.R11', ('xdoctest/directive.py', "                    # If the requirement is met, then do nothing,\n                    action = 'noop'\n", "                    # If the requirement is met, then do nothing,\n                    pass\n")),
     fire('value-read-before-any-eval', 'C09.R11', ('xdoctest/doctest_example.py', "            got_eval = constants.NOT_EVALED\n", "            pass\n")),
     fire('fallback-repr-through-format', 'C09.R2', ('xdoctest/checker.py', "                try:\n                    got = repr(got_eval)\n                except Exception as ex:\n                    raise ExtractGotReprException('Error calling repr for {}. Caused by: {!r}'.format(type(got_eval), ex), ex)\n                flag = check_output(got, want, runstate)\n                if not flag:\n                    got = got_stdout\n", "                got = '{!r}'.format(got_eval)\n                flag = check_output(got, want, runstate)\n                if not flag:\n                    got = got_stdout\n")),
